@@ -13,6 +13,9 @@ Core semantics of copy_from_slice / index are trusted.
 from mirlib import *
 from paths import *
 from shape import *
+from ranges import ISet, _mk, leaves
+
+CONT_SET = ISet.of((0x80, 0xBF))
 
 FN = 'utf_8::Utf8Encoder::encode_from_utf8_raw'
 SRC, DST = ('loc', 2), ('loc', 3)
@@ -152,11 +155,28 @@ def run(rep, f, c, rule='R-UTF8ENC'):
         conts = []
         for e in p.conds():
             ce, t = e[1], e[2]
-            if ce[0] == 'bin' and ce[1] in ('Eq', 'Ne') and ce[2][0] == 'bin' and ce[2][1] == 'BitAnd' and is_c(ce[2][3], 0xC0) and is_c(ce[3], 0x80) and isinstance(t, bool):
-                x = ce[2][2]
-                x = x[1] if x[0] == 'deref' else x
-                at_t = x[0] == 'idx' and is_src_bytes(x[1]) and x[2] == t0
-                conts.append((at_t, t == (ce[1] == 'Eq')))
+            if not (isinstance(t, bool) and isinstance(ce, tuple) and ce[0] == 'bin'):
+                continue
+            # a test of one byte of the source: is it "continuation byte" (80-BF), however it is computed
+            # ((b & 0xC0) == 0x80, (b as i8) < -0x40, 0x80 <= b && b <= 0xBF as one comparison ...)?  Decided by R-RANGE.
+            ls = []
+            for l_ in leaves(ce):
+                if l_ not in ls:
+                    ls.append(l_)
+            if len(ls) != 1:
+                continue
+            x = ls[0]
+            x = x[1] if x[0] == 'deref' else x
+            if not (x[0] == 'idx' and is_src_bytes(x[1])):
+                continue
+            ra = _mk(f, b, Resolver(b), ls[0], 8, 256)
+            ts, fs, us = ra.ev(ce).truth_set()
+            if us:
+                continue
+            if ts == CONT_SET:
+                conts.append((expand(x[2]) == t0 or x[2] == t0, t))
+            elif fs == CONT_SET:
+                conts.append((expand(x[2]) == t0 or x[2] == t0, not t))
         if p.end[0] in ('stop', 'back'):
             nstep += 1
             if not (conts == [(True, True)] and p.env.get(T) == ('bin', 'Sub', t0, C(1)) and not copies(p)):
